@@ -111,6 +111,11 @@ func pivotOperator(_ *dataTreeNavigator, context Context, _ *ExpressionNode) (Co
 		case "!!seq":
 			pivot = pivotSequences(candidate)
 		case "!!map":
+			for _, row := range candidate.Content {
+				if row.Kind != MappingNode {
+					return Context{}, fmt.Errorf("can only pivot elements of !!seq or !!map types, received a node tagged !!map that is not a map")
+				}
+			}
 			pivot = pivotMaps(candidate)
 		default:
 			return Context{}, fmt.Errorf("can only pivot elements of !!seq or !!map types, received %v", tag)
